@@ -8,6 +8,8 @@
 (*        sample is written through - Dequeue directly followed by Spill)  *)
 (*   core/aggregator/discard.go (Mode = "discard": Report throws away,     *)
 (*        Run just waits for ctx.Done())                                   *)
+(*   core/aggregator/test.go (Mode = "memory": Report appends to a slice   *)
+(*        under a lock - the slice is the "sink"; Run waits for ctx.Done())*)
 (*   core/aggregator/reporter.go + encoder.go (Mode = "drop":              *)
 (*        Report = select { case Incomming <- s: default: dropped++ })     *)
 (* One action per select case / statement of Run:                          *)
@@ -93,17 +95,21 @@ Report(g) ==
        \/ /\ Mode = "discard"                               \* thrown away: no queue, no counter, never blocks
           /\ made' = [made EXCEPT ![g] = @ + 1]
           /\ lost' = lost \cup {s}
-          /\ UNCHANGED <<queue, dropped>>
-       \/ /\ Mode # "discard" /\ Len(queue) < Q
+          /\ UNCHANGED <<queue, dropped, disk, buf>>
+       \/ /\ Mode = "memory"                                \* kept at once, never blocks, never drops
+          /\ made' = [made EXCEPT ![g] = @ + 1]
+          /\ disk' = Append(disk, s)
+          /\ UNCHANGED <<queue, dropped, lost, buf>>
+       \/ /\ Mode \notin {"discard", "memory"} /\ Len(queue) < Q
           /\ queue' = Append(queue, s)
           /\ made' = [made EXCEPT ![g] = @ + 1]
-          /\ UNCHANGED <<dropped, lost>>
+          /\ UNCHANGED <<dropped, lost, disk, buf>>
        \/ /\ Mode = "drop" /\ Len(queue) >= Q
           /\ made' = [made EXCEPT ![g] = @ + 1]
           /\ dropped' = IF Bug = "nocount" THEN dropped ELSE dropped + 1
           /\ lost' = lost \cup {s}
-          /\ UNCHANGED queue
-    /\ UNCHANGED <<buf, disk, cancelled, apc, closed, result, errV>>
+          /\ UNCHANGED <<queue, disk, buf>>
+    /\ UNCHANGED <<cancelled, apc, closed, result, errV>>
 
 \* the engine cancels the aggregator's context (checkAllInstancesAreFinished -> runCancel)
 Cancel == /\ ~cancelled
@@ -227,9 +233,14 @@ DiscardIsInert == Mode = "discard" => /\ queue = <<>> /\ buf = <<>> /\ disk = <<
                                       /\ \A g \in G : (made[g] < M /\ ~cancelled) => ENABLED Report(g)
                                       /\ (apc = "done" => result = 0 /\ AllReported)
 \* blocking mode never drops
-BlockNeverDrops == Mode = "block" => dropped = 0 /\ lost = {}
+BlockNeverDrops == Mode \in {"block", "memory"} => dropped = 0 /\ lost = {}
+\* the in-memory aggregator holds every report the moment its Report returns (GetSamples at any time)
+MemoryKeepsAll == Mode = "memory" => /\ queue = <<>> /\ buf = <<>> /\ Rng(disk) = Reported /\ NoDup(disk)
+                                     /\ \A g \in G : (made[g] < M /\ ~cancelled) => ENABLED Report(g)
+\* (negative control: a finished in-memory run that holds all K*M reports is reachable)
+MemoryRunReachable == ~(Mode = "memory" /\ apc = "done" /\ Len(disk) = K * M)
 \* nothing reaches the sink after Close
-ClosedIsFinal == [][closed => disk' = disk]_vars
+ClosedIsFinal == [][(closed /\ Mode # "memory") => disk' = disk]_vars
 \* every run ends once it is cancelled
 Terminates == cancelled ~> apc = "done"
 =============================================================================
